@@ -6,7 +6,7 @@ READY = True
 META = {
     "technique": "Lean 4 proof (serde data model by shape: de ∘ ser = id; handle registry; JSON writer for whole values in all formatter styles + independent JSON reader: read ∘ tojson ∘ write = id; HTML-safe alphabet) + differential runs of a shape-driven Serialize/DeserializeSeed pair, derived types, and three independent JSON readers (Python json, serde_json, the Lean reader)",
     "category": "proof",
-    "text": "Kernel-checked theorems about an executable model of value/serialize.rs (ValueSerializer), value/deserialize.rs (Deserializer for Value driven by the derived visitor of a shape, including serde's lenient primitive conversions) and the value-handle registry: every well-formed datum of every shape (bools, 8..64-bit integers, f32/f64 bit patterns, chars, strings, bytes, options of non-optional payloads, unit, seqs, tuples, maps, unit/newtype/tuple/field structs, enums with unit/newtype/tuple/struct variants, nested arbitrarily) deserialises from its serialisation to itself; de decides (ok/error) every object-free value for every shape; an embedded Value comes back identical whatever the registry held before. For JSON: the text of every value that has a JSON image (nested arrays/objects, keys by string form, none/undefined/non-finite floats null, bytes as numbers, integers of every width, finite floats by ryu's shortest text) written by serde_json's compact writer, the JinjaJsonFormatter, or the pretty writer with any indent, and post-processed by tojson (table extracted from filters.rs) or not (auto-escaping), is read back to exactly that image by an independent strict JSON reader; tojson output never contains < > & '. The model is tied to /repo by running the same random shapes/data through the real Serializer/Deserializer and through the model, and by predicting the real tojson / auto-escape output character for character (member order of the BTreeMap and IndexMap builds, float text), which is also parsed by Python's json (bit-exact floats) and serde_json.",
+    "text": "Kernel-checked theorems about an executable model of value/serialize.rs (ValueSerializer), value/deserialize.rs (Deserializer for Value driven by the derived visitor of a shape, including serde's lenient primitive conversions) and the value-handle registry: every well-formed datum of every shape (bools, 8..64-bit integers, f32/f64 bit patterns, chars, strings, bytes, options of non-optional payloads, unit, seqs, tuples, maps, unit/newtype/tuple/field structs, enums with unit/newtype/tuple/struct variants, nested arbitrarily) deserialises from its serialisation to itself; de decides (ok/error) every object-free value for every shape; an embedded Value comes back identical whatever the registry held before. For JSON: the text of every value that has a JSON image (nested arrays/objects, keys by string form, none/undefined/non-finite floats null, bytes as numbers, integers of every width, finite floats by ryu's shortest text) written by serde_json's compact writer, the JinjaJsonFormatter, or the pretty writer with any indent, and post-processed by tojson (table extracted from filters.rs) or not (auto-escaping), is read back to exactly that image by an independent strict JSON reader; tojson output never contains < > & '; towards an external serializer a value announces a sequence length only when exactly that many elements follow (serde's contract, which serde_json relies on), for lists, tuples, one-shot iterators, make_iterable adapters and custom objects with every Enumerator answer. The model is tied to /repo by running the same random shapes/data through the real Serializer/Deserializer and through the model, and by predicting the real tojson / auto-escape output character for character (member order of the BTreeMap and IndexMap builds, float text), which is also parsed by Python's json (bit-exact floats) and serde_json.",
     "design_ref": "DESIGN.md §3 C16",
     "level_note": "Trusted: Lean kernel; hand transcription of serialize.rs/deserialize.rs/ValueHandleRegistry into MJ/Model/Serde.lean and of serde_json's writer/formatters, ryu's format64 layout and Value::cmp on map keys into MJ/Model/Json.lean (validated by the correspondence streams, sampled; every emitted text is predicted exactly); serde's own primitive/Option/seq/map visitors and derive output are represented by the harness' Seed visitors (and by 13 really derived types). Not proved: that the printed float token denotes the same double (checked bit-exactly against Python's correctly rounded reader on every float case).",
 }
@@ -32,6 +32,22 @@ def parse_vd(toks, i):
         return ("str", bytes.fromhex(rest).decode("utf-8")), i + 1
     if h == "y":
         return ("list", [("int", b) for b in bytes.fromhex(rest)]), i + 1
+    if h == "Z":
+        n = int(toks[i + 1]); i += 2
+        xs = []
+        for _ in range(n):
+            x, i = parse_vd(toks, i)
+            xs.append(x)
+        # the Empty / NonEnumerable answers yield nothing
+        return ("list", [] if rest in ("ce", "cn") else xs), i
+    if h == "W":
+        n = int(toks[i + 1]); i += 2
+        ms = []
+        for _ in range(n):
+            k, i = parse_vd(toks, i)
+            v, i = parse_vd(toks, i)
+            ms.append((k, v))
+        return ("dict", [] if rest == "wn" else ms), i
     if h in "LP":
         n = int(toks[i + 1]); i += 2
         xs = []
@@ -222,6 +238,54 @@ def check_lines(r, lines, model):
                     r.model_disagreement(case, out, "\t".join(m))
                 else:
                     r.hist["model"]["agree:json:" + m[2][5:]] += 1
+        elif stream == "ser":
+            # `impl Serialize for Value` through the shape-recording serializer: the serde length contract
+            r.count(case, True)
+            log, verdict = f[1], f[2]
+            r.hist["ser_contract"][verdict.split(":")[1]] += 1
+            if verdict != "contract:ok":
+                what = verdict[len("contract:bad:"):] if verdict.startswith("contract:bad:") else log[:100]
+                site = "ser:contract:" + ("seq" if "serialize_seq" in what else "map" if "serialize_map" in what else "error")
+                r.oracle_failure(case, "Value::serialize broke the serde length contract: " + what, site)
+            if m is not None and m[0] != log:
+                r.model_disagreement(case, log, m[0])
+            elif m is not None:
+                r.hist["model"]["agree:ser"] += 1
+        elif stream == "lde":
+            r.count(case, True)
+            r.hist["lde_result"][f[1].split(" ")[0]] += 1
+            if f[1] == "panic" or f[1].startswith("owned/"):
+                r.oracle_failure(case, "deserialising from a lazily produced value: " + f[1][:200], "lde:" + f[1].split(" ")[0])
+            if m is not None and m[0] != f[1]:
+                r.model_disagreement(case, f[1], m[0])
+            elif m is not None:
+                r.hist["model"]["agree:lde"] += 1
+        elif stream in ("tpl", "tplraw"):
+            r.count(case, True)
+            out = f[1]
+            mode = case.split()[1] if stream == "tpl" else "raw"
+            cls = "autoescape" if mode == "auto_json" else "tojson"
+            if out.startswith("err:") or out == "panic":
+                r.hist["tpl_result"]["error"] += 1
+                r.oracle_failure(case, f"template-built value failed to render as JSON ({out})", f"tpl:{cls}:error")
+                continue
+            text = bytes.fromhex(out).decode("utf-8")
+            if mode != "auto_json" and stream == "tpl" and any(c in "<>&'" for c in text):
+                r.oracle_failure(case, f"tojson output contains one of < > & ': {text[:80]!r}", "tojson:alphabet")
+            try:
+                got = py_parse(text)
+            except ValueError as e:
+                r.hist["tpl_result"]["invalid"] += 1
+                r.oracle_failure(case, f"output is not valid JSON ({e}): {text[:120]!r}", f"tpl:{cls}:invalid")
+                continue
+            if stream == "tpl":
+                if f[2] != "-" and got != json.loads(bytes.fromhex(f[2]).decode("utf-8")):
+                    r.hist["tpl_result"]["wrong-image"] += 1
+                    r.oracle_failure(case, f"output parses to a different value than iterating the value yields: {text[:120]!r}", f"tpl:{cls}:image")
+                    continue
+                if f[3].startswith("contract:bad"):
+                    r.oracle_failure(case, "Value::serialize broke the serde length contract: " + f[3][13:], "ser:contract:seq")
+            r.hist["tpl_result"]["ok"] += 1
         else:
             r.broken.append("unknown harness line: " + line[:80])
         if i % 1500 == 0:
@@ -230,7 +294,10 @@ def check_lines(r, lines, model):
 
 def run(r):
     r.rule = ("random shapes of the serde data model to depth 4 with boundary-heavy data (+ hand-picked anchors), cross-shape deserialisation, "
-              "13 derived types, embedded values in 13 contexts x 14 kinds, JSON texts of random values/strings in 7 tojson/auto-escape modes "
+              "13 derived types, embedded values in 13 contexts x 18 kinds, lazily produced sequences/maps of 24 kinds (one-shot iterators, "
+              "make_iterable adapters, custom Objects with every Enumerator answer) at top level and nested through every JSON mode, a "
+              "shape-recording serializer (serde length contract) and as deserialisation sources, 50 template-built lazy expressions, "
+              "JSON texts of random values/strings in 7 tojson/auto-escape modes "
               "(+ every single character below U+0100 and the separator/surrogate-neighbour characters); a case is non-trivial when the "
               "shape/value is composite")
     r.assumptions = [
@@ -240,6 +307,8 @@ def run(r):
         "map keys without a JSON string form (none, sequences, bytes, non-finite floats) make tojson fail instead of emitting text",
         "the shortest round-trip digits of a double are those of the model's exact-arithmetic search (validated on every float case; the token's grammar is proved, its value is checked by Python)",
         "integers held in a 128-bit representation although they fit 64 bits are not distinguished by the model",
+        "iterators behind Enumerator::Iter/RevIter report honest size hints (lower <= count <= upper) and Object::enumerator_len is not overridden with a wrong answer (the serde length contract theorem is stated for such objects)",
+        "lazily produced values used as keys of an ordered map and plain objects as deserialisation sources are out of scope",
         "a safe string printed directly under JSON auto-escaping is written verbatim (safe = already escaped by definition)",
     ]
     r.regen_tables(["TOJSON_REPLACEMENTS", "TOJSON_TRUE_INDENT", "JINJA_JSON_SEPARATORS", "VALUE_HANDLE_MARKER", "SERDE_JSON_ESCAPE"])
